@@ -4,4 +4,8 @@ CHECKS = {
    technique="runtime monitoring: differential round-trip oracle vs independent RFC 1035 codec + Name-construction invariant hook + parser step-budget spy",
    text="Generated and hostile names are pushed through the real text/wire codecs and every producing operation while (a) an independent reference codec predicts the exact result or that the operation must raise, (b) a hook on Name.__init__/__setstate__ re-checks the 63/255/empty-label limits for every Name object created in the process, (c) a parser spy bounds decode steps. Held = no disagreement on the executions explored (counts in evidence); exhaustive only for the one-/two-octet label sub-spaces named there.",
    note="Trusts vlib/ref/names.py and CPython; case-variant suffix sharing by the compressor is treated as conforming."),
+ "C06": dict(level="exploration",
+   technique="runtime monitoring: differential oracle vs independent RFC 4034 §6.1 order over adversarial name pairs/triples; algebraic-law monitors (antisymmetry, transitivity, hash coherence); successor/predecessor sweep exhaustive in the last octet",
+   text="Every comparison API (fullcompare, six rich comparisons, sorted, ==/hash, is_subdomain/is_superdomain, split/parent, relativize/derelativize, NameDict deepest match, successor/predecessor) is run on adversarial names concentrated on the case-fold boundary and compared with an independent reference order and with the algebraic laws evaluated on the library's own answers. Held = no disagreement on the pairs/triples explored; the last-octet dimension of successor/predecessor is enumerated completely.",
+   note="Trusts vlib/ref/names.py. Successor minimality is not demanded; a wrap to the origin is accepted only when no RFC 4471 move can produce a greater name."),
 }
